@@ -201,6 +201,11 @@ def o_c15_pre(w, args):
                        vs(c, s), json.dumps(c[s], sort_keys=True), id(c[s]))
     st = {'line': line, 'rec': rec, 'names': {tok(s): s for s in c.simplices()}, 'betti': dict(c.bettiNumbers()),
           'cls': classify(c, line, w)}
+    # the by-basis and by-faces lookups are part of what a renaming carries along; use them before too
+    for s in c.simplices():
+        c.simplexWithBasis(list(c.basisOf(s)))
+        if c.orderOf(s) > 0:
+            c.simplexWithFaces(list(c.faces(s)))
     if args[1] == 'relabeldisj':
         o = w.vars[args[3]]
         st['other'] = set(map(tok, o.simplices()))
@@ -289,6 +294,14 @@ def _carried(c, before, f, api, st):
             return '[%s/not-carried] %s of %s: %r, expected %r' % (api, fields[i], n, now[n][i], want[n][i])
     if dict(c.bettiNumbers()) != st['betti']:
         return '[%s/betti-changed] Betti numbers %s -> %s' % (api, st['betti'], dict(c.bettiNumbers()))
+    for s in c.simplices():
+        t = c.simplexWithBasis(list(c.basisOf(s)))
+        if t is None or tok(t) != tok(s):
+            return '[%s/lookup-not-carried] simplexWithBasis(basis of %s) returns %s afterwards' % (api, tok(s), 'None' if t is None else tok(t))
+        if c.orderOf(s) > 0:
+            t = c.simplexWithFaces(list(c.faces(s)))
+            if t is None or tok(t) != tok(s):
+                return '[%s/lookup-not-carried] simplexWithFaces(faces of %s) returns %s afterwards' % (api, tok(s), 'None' if t is None else tok(t))
     return None
 
 # ================================================================ C16
@@ -391,6 +404,15 @@ def o_c17(w, args):
     try:
         write_json(c, path)
         m = decoded_ok(read_json(path), 'read_json')
+        if not m:
+            # writing over an existing, longer file (an earlier, larger state of the same complex)
+            with open(path, 'w') as fh:
+                fh.write(text + ' ' * 64 + '\n{"left": "over"}\n')
+            write_json(c, path)
+            try:
+                m = decoded_ok(read_json(path), 'read_json-after-overwrite')
+            except ValueError as e:
+                m = '[read_json/overwrite] write_json over an existing longer file, then read_json: %s' % e
     finally:
         os.unlink(path)
     if m: return m
@@ -543,7 +565,7 @@ def o_c19(w, args):
         keep = {p for p in h if h[p] > l}
         levels += sum((-1) ** (len(V) - 1) for V in fam.values() if V <= keep)
     try:
-        got = EulerIntegrator(key, default).integrate(c)
+        got = w.integrator(key, default).integrate(c)          # the script's own integrator object, used before
     except Exception as e:
         return '[integrate/raises] %s: %s' % (type(e).__name__, e)
     if simplexwise != levels:
